@@ -18,7 +18,7 @@ func TestMain(m *testing.M) { harness.Main(m, "C16") }
 var callFacet = harness.Register(&harness.Facet[callCase]{
 	Name:  "call",
 	Rule:  "rapid: a Go function signature over m16's type table (every numeric width, string, bool, interface{}, named kinds, slices, maps, structs with json tags/embedded/unexported fields, pointers, funcs, variadic tails, 0-3 results; built with reflect.MakeFunc, recording its arguments) called from script with arguments aimed at each parameter type (boundaries of the width: both sides of min/max, halves, NaN, +-Inf, -0, 2^53+1, float32-inexact; strings, booleans, null/undefined, arrays with holes, objects, functions, wrapper objects, array-likes, bridged Go objects passed back, bridged Go slices / array pointers of all twelve numeric element kinds with boundary elements, and re-entrant values whose toString or getter calls the same function again while the outer call is still converting) in five script spellings (int64/float64/int32/uint32/int carried inside the Value) plus eleven Go-originated forms (a Value carrying a Go uint64/uint/int64/…/float32, as results, fields and elements do); two distinct struct types that print the same name (TwinA/TwinB) are parameter types and are both bridged in every runtime and arities 0..n+2; each call runs twice (inside try, and bare so that Run's own error/panic is seen). non-trivial = some argument needs a checked conversion (out of range, fractional, wrong kind, inexact, container) or the arity is wrong; distinct by the JSON of the case",
-	Quick: 9000, Thorough: 32000,
+	Quick: 9000, Thorough: 24000,
 	Gen:   genCall,
 	Check: checkCall,
 })
@@ -28,7 +28,7 @@ func TestCall(t *testing.T) { callFacet.Run(t) }
 var histFacet = harness.Register(&harness.Facet[histCase]{
 	Name:  "hist",
 	Rule:  "rapid: one bridged container (*struct / struct by value with json tags, embedded struct, unexported field carrying a sentinel, json:\"-\" field, pointer/interface/slice/map fields; map[string]T for eight T, map[int|int8|uint16]T, named maps with methods (StrIntM.Total, Hdr.Get/Len/Del) and keys spelled like those methods; []T by value for ten T incl. a named slice with a method; *[n]T; [n]T by value; two same-named distinct struct types; slice/array/map fields of a *struct reached through the struct on every step) with generated initial contents and a history of 1-12 steps drawn as one value: script set / defineProperty / delete / get / length= / push / pop / shift / splice / method call / passing a struct-typed field to a Go func(*T) that mutates through and keeps the pointer / assigning such a field to a pointer field with keys from pools (field names, json tags, promoted and unexported names, canonical and non-canonical integer keys, indices inside, at and beyond the length, non-index names) and values aimed at the element type (boundaries, fractions, NaN, wrong kinds), interleaved with Go-side writes and deletes on the same object (also through the kept pointer). After every step the script's view (Object.keys, for-in, every value, length, reads by tag/promoted/unexported/unknown name) is compared with the Go contents read by reflection. non-trivial = the history contains a write needing a checked conversion, a structural rejection, or a step that follows a Go-side mutation; distinct by the JSON of the case",
-	Quick: 2500, Thorough: 11000,
+	Quick: 2500, Thorough: 8000,
 	Gen:   genHist,
 	Check: checkHist,
 })
